@@ -304,10 +304,11 @@ CliStep(t) ==
             SetT(t, [th EXCEPT !.opc = "ret"]) /\ UNCHANGED <<connmu, rpc, mgr>>
        [] th.opc = "inv.created" ->
             /\ rpc' = [rpc EXCEPT ![th.r].sid = th.sid]
-            /\ SetT(t, [th EXCEPT !.opc = IF th.op = "Invoke" THEN "inv.lock" ELSE "ns.meta"]) /\ UNCHANGED <<connmu, mgr>>
-       [] th.opc = "inv.lock" ->     \* c.mu.Lock()
+            /\ SetT(t, [th EXCEPT !.opc = IF th.op \in {"Invoke", "InvokeBad"} THEN "inv.lock" ELSE "ns.meta"]) /\ UNCHANGED <<connmu, mgr>>
+       [] th.opc = "inv.lock" ->     \* c.mu.Lock(), then the request is marshalled; a request that does not marshal ends the call here
             /\ connmu = NONE /\ connmu' = t
-            /\ SetT(t, [th EXCEPT !.opc = "inv.meta"]) /\ UNCHANGED <<rpc, mgr>>
+            /\ SetT(t, IF th.op = "InvokeBad" THEN [th EXCEPT !.opc = "inv.unlock", !.res = "marshalErr"]
+                       ELSE [th EXCEPT !.opc = "inv.meta"]) /\ UNCHANGED <<rpc, mgr>>
        [] th.opc \in {"inv.meta", "ns.meta"} ->
             /\ UNCHANGED <<connmu, rpc, mgr>>
             /\ LET nxt == IF th.op = "Invoke" THEN "inv.w1" ELSE "ns.w1" IN
@@ -536,7 +537,7 @@ RelM(t) ==
     /\ UNCHANGED <<mgr, str, wr, net, rbuf, tp, rpc, nrpc, sctx, connmu, wire, hmeta>>
 
 Controllable ==
-    \/ \E t \in CliThreads, op \in {"Invoke", "NewStream"}, md \in {NONE, "M1", "M2"} : StartRPC(t, op, md)
+    \/ \E t \in CliThreads, op \in {"Invoke", "NewStream", "InvokeBad"}, md \in {NONE, "M1", "M2"} : StartRPC(t, op, md)
     \/ \E t \in CliThreads, op \in {"Send1", "Send2", "SendBad", "SendG", "Recv", "RecvRaw", "CloseSend", "Close", "SendErr"}, r \in Sids : StartOp(t, op, r)
     \/ \E t \in CliThreads : StartClose(t)
     \/ \E a \in HActs : HStep(a)
